@@ -1,3 +1,10 @@
 """Claimed checks beyond C05 and properties whose check is still under construction."""
-CLAIMED = {}
-BUILDING = {p: "claimed in DESIGN.md; its simulation machine is under construction at this commit (no check registered yet)" for p in ("C07", "C09", "C10", "C17", "C18", "C19")}
+CLAIMED = {
+ "C07": dict(ref="4.2", technique="deterministic simulation: seeded histories of API calls over shared caller-owned buffers (views, aliases, exact zeros); oracle = bitwise pristine copies (I1) and a history-free twin world (I2)",
+   text="Seeded exploration of call histories that share caller-owned arrays across all 47 metrics and the four models; after every call the caller's buffers are compared bit-for-bit with pristine copies and the result with the same call on a twin world without history. Minimised replay files. Sampling, not proof.",
+   note="Caller arrays are float64/int64; SupervisedOPF.learn is excluded (mutation is its purpose, see C17); a call raising the same exception type in both worlds gives no I2 verdict."),
+ "C09": dict(ref="4.3", technique="deterministic simulation: seeded predict histories (batch composition, order, repetition, interleaved irrelevant calls) with an aborted-call fault injected through the distance callback; oracle = single-valuedness of every returned label against a pristine model copy",
+   text="Seeded exploration of predict-call histories on one fitted model per run (all four kinds, all 47 metrics, on-the-fly and pre-computed distances) including aborted predicts; every label/cluster ever returned for a pool sample must equal the one a pristine deep copy returns for that sample alone. Minimised replay files. Sampling, not proof.",
+   note="Reference is the library's own singleton prediction on a deep copy of the fitted model (no independent OPF model is needed for single-valuedness); relevance flags are excluded from the comparison."),
+}
+BUILDING = {p: "claimed in DESIGN.md; its simulation machine is under construction at this commit (no check registered yet)" for p in ("C10", "C17", "C18", "C19")}
